@@ -299,8 +299,8 @@ func (m *monitors) checkLog(r *run, dts map[string]*dtInfo, inflight bool, final
 	// push-pull of that datatype repairs it (see C08): then the equation is only demanded at the end
 	faulted := false
 	for k, v := range r.res.Faults {
-		if strings.HasPrefix(k, "mongo-") && v > 0 && k != "mongo-slow" && k != "mongo-stall" {
-			faulted = true
+		if (strings.HasPrefix(k, "mongo-") || k == "server-crash") && v > 0 && k != "mongo-slow" && k != "mongo-stall" {
+			faulted = true // a server crash around a command interrupts a commit exactly as a command error does
 		}
 	}
 	if faulted && !final {
